@@ -1,4 +1,6 @@
 import Mdsort.Model.Plan
+import Mdsort.Proofs.WorldMain
+import Mdsort.Proofs.WorldExec
 
 /-! Definitions and lemmas for the world-level properties C01, C02, C04, C05. -/
 
@@ -32,19 +34,37 @@ structure Start (w : World) (st : ExecSt) (orig : Bytes) : Prop where
 /-- The action list contains no discard (the grammar makes discard exclusive). -/
 def NoDiscard (ml : MatchList) : Prop := ∀ m ∈ ml, m.ty ≠ .discard
 
+/-- The start situation gives the invariant of `Mdsort.Proofs.World`: the message's entry is bound to a
+file that existed before (`freshIds`) and holds `orig` both visibly and durably. -/
+theorem Start.good {w : World} {st : ExecSt} {orig : Bytes} (hs : Start w st orig) :
+    World.Good w (stages st.ms orig) := by
+  obtain ⟨fid, hl, hf⟩ := hs.bound
+  refine ⟨st.src.path, st.ms.name, fid, hl, hs.freshIds _ (World.mem_files_of_file hf), _, hf, ?_, ?_⟩ <;>
+    simp [stages]
+
+theorem World.Good.intact {w : World} {cs : List Bytes} (h : World.Good w cs) : Intact w cs := by
+  obtain ⟨p, n, fid, hl, _, f, hf, hd, _⟩ := h
+  exact ⟨p, n, fid, f, hl, hf, hd⟩
+
+theorem World.Good.intactDurable {w : World} {cs : List Bytes} (h : World.Good w cs) : IntactDurable w cs := by
+  obtain ⟨p, n, fid, hl, _, f, hf, _, hd⟩ := h
+  exact ⟨p, n, fid, f, hl, hf, hd⟩
+
 /-- C02 (process kill) and C01 (loss-freedom): under EVERY fault plan, after EVERY call of the
 execution of an action list, some entry is bound to a complete version of the message. -/
 theorem exec_always_intact (env : PEnv) (ml : MatchList) (st : ExecSt) (w : World) (orig : Bytes) (plan : Plan)
     (hs : Start w st orig) (hd : NoDiscard ml) :
     ∀ w' ∈ (runPlan plan (matchesExec env ml st) w 0 []).2.2, Intact w' (stages st.ms orig) := by
-  sorry
+  intro w' hw'
+  exact (World.matchesExec_history_good env ml st w plan hs.good (by simp [stages]) hd w' hw').intact
 
 /-- C02 (power failure): the same on stable storage - a copy is flushed and fsync'ed before the
 original name is removed. -/
 theorem exec_always_durable (env : PEnv) (ml : MatchList) (st : ExecSt) (w : World) (orig : Bytes) (plan : Plan)
     (hs : Start w st orig) (hd : NoDiscard ml) :
     ∀ w' ∈ (runPlan plan (matchesExec env ml st) w 0 []).2.2, IntactDurable w' (stages st.ms orig) := by
-  sorry
+  intro w' hw'
+  exact (World.matchesExec_history_good env ml st w plan hs.good (by simp [stages]) hd w' hw').intactDurable
 
 /-- All calls of a program under a plan. -/
 def callsOf {α} (plan : Plan) (p : Prog α) (w : World) : List Call :=
@@ -55,7 +75,9 @@ theorem syntax_only_calls (env : PEnv) (orc : EvalOracles) (ok : Bool) (conf : L
     (w : World) (plan : Plan) (hn : env.syntaxOnly = true) :
     callsOf plan (mainP env orc ok conf files input) w = [.fopen env.confpath] ∨
     ∃ h, callsOf plan (mainP env orc ok conf files input) w = [.fopen env.confpath, .fclose h] := by
-  sorry
+  obtain ⟨st1, st2, he⟩ := World.mainP_syntaxOnly env orc ok conf files input hn
+  rw [he]
+  exact World.confOnly_calls env st1 st2 plan w
 
 /-- Calls that change a configured maildir: everything mutating except the stdin spool's own
 creation and removal below TMPDIR. -/
@@ -70,8 +92,8 @@ whatever the configuration, the messages and the fault plan are (command conditi
 modelled as calls: their effect on the valuation is a parameter of the evaluator). -/
 theorem dryrun_no_mutation (env : PEnv) (orc : EvalOracles) (ok : Bool) (conf : List ConfBlock) (files : Files) (input : Bytes)
     (w : World) (plan : Plan) (hd : env.dryrun = true) (hm : env.stdinMode = false) :
-    ∀ c ∈ callsOf plan (mainP env orc ok conf files input) w, c.mutating = false ∧ c ≠ .fork := by
-  sorry
+    ∀ c ∈ callsOf plan (mainP env orc ok conf files input) w, c.mutating = false ∧ c ≠ .fork :=
+  World.quiet_callsOf plan _ w (World.quiet_mainP env orc ok conf files input hd hm)
 
 /-- C04: the exit status is computed from the error and reject flags only: 0/1 in maildir mode;
 in stdin mode 75 iff an error occurred, else 1 iff a reject was executed, else 0. -/
@@ -79,7 +101,9 @@ theorem exit_status_table (env : PEnv) (orc : EvalOracles) (ok : Bool) (conf : L
     (w : World) (plan : Plan) :
     let r := (runPlan plan (mainP env orc ok conf files input) w 0 []).1
     r.1 = exitStatus env r.2 := by
-  sorry
+  intro r
+  have h := (World.mainP_all env orc ok conf files input).run plan w 0
+  simpa [r, World.runPlan_eq] using h
 
 /-- A rejected configuration (or an unreadable one) is an error and nothing else happens. -/
 theorem bad_config_only_reads_config (env : PEnv) (orc : EvalOracles) (conf : List ConfBlock) (files : Files) (input : Bytes)
@@ -88,6 +112,9 @@ theorem bad_config_only_reads_config (env : PEnv) (orc : EvalOracles) (conf : Li
     r.1.2.error = true ∧
     (callsOf plan (mainP env orc false conf files input) w = [.fopen env.confpath] ∨
      ∃ h, callsOf plan (mainP env orc false conf files input) w = [.fopen env.confpath, .fclose h]) := by
-  sorry
+  obtain ⟨st, hst, he⟩ := World.mainP_badconf env orc conf files input
+  rw [he]
+  refine ⟨?_, World.confOnly_calls env st st plan w⟩
+  rcases World.confOnly_result env st st plan w with h | h <;> simp only [h, hst]
 
 end Mdsort.Proofs
